@@ -36,7 +36,8 @@ ASSUMPTIONS = ["explicit key mappings (the inferred map is C17's subject)", "pan
 REQUIRED_CLASSES = {t: ["c12:ids=str", "c12:ids=noncontig", "c12:ids=float", "c12:renamed", "c12:3D",
                         "c12:malformed:duplicate_id", "c12:malformed:unknown_parent", "c12:malformed:self_link",
                         "c12:malformed:missing_column", "c12:malformed:unmapped_key", "part:geff",
-                        "c12:crossed_single_value_names", "c12:non_default_index", "c12:mixed_int_float_position_columns", "c12:via_csv_file", "c12:legacy_axis_keys", "c12:features_arg", "c12:geff_malformed:duplicate_id",
+                        "c12:crossed_single_value_names", "c12:non_default_index", "c12:geff_sparse_properties", "c12:geff_composite_custom",
+                        "c12:mixed_int_float_position_columns", "c12:via_csv_file", "c12:legacy_axis_keys", "c12:features_arg", "c12:geff_malformed:duplicate_id",
                         "c12:geff_malformed:unknown_parent", "c12:geff_malformed:self_link"]
                     for t in ("quick", "thorough")}
 
@@ -120,6 +121,7 @@ def sources(draw, geff=False):
             "shuffle": draw(st.integers(0, 8)), "index_mode": draw(st.sampled_from([0, 0, 1, 2, 3, 4])),
             "via_file": draw(st.integers(0, 3)) == 0, "legacy_pos": draw(st.integers(0, 4)) == 0,
             "features_arg": draw(st.integers(0, 3)) == 0,
+            "sparse": draw(st.booleans()), "pair": draw(st.booleans()),
             "mutation": draw(st.sampled_from([None, None, None, "duplicate_id", "unknown_parent", "self_link",
                                               "missing_column", "unmapped_key", "mapped_to_missing"])),
             "mpick": draw(st.integers(0, 100))}
@@ -387,6 +389,37 @@ def probe_geff(inp) -> ProbeResult:
     for k in inp["customs"]:
         if k in ("ci", "cf"):
             nm[k] = cols[k]
+    # sparse properties: some nodes lack ci, others lack cf (GEFF stores a 'missing' mask)
+    sparse = bool(inp.get("sparse")) and len(inp["nodes"]) >= 2
+    lacks = {"ci": set(), "cf": set()}
+    if sparse:
+        for j, m in enumerate(inp["nodes"]):
+            r = (inp["mpick"] + 3 * j) % 4
+            if r == 0:
+                lacks["ci"].add(m["id"])
+            elif r == 1:
+                lacks["cf"].add(m["id"])
+        if all(m["id"] in lacks["ci"] for m in inp["nodes"]) or all(m["id"] in lacks["cf"] for m in inp["nodes"]):
+            sparse = False
+            lacks = {"ci": set(), "cf": set()}
+        for m in inp["nodes"]:
+            for k in ("ci", "cf"):
+                if m["id"] in lacks[k]:
+                    del g.nodes[m["id"]][cols[k]]
+    # a two-column custom property; its columns may also be mapped on their own (duplicates are
+    # allowed). As for position columns: columns of a composite keep their own names inside the
+    # importer, so they are never spelled like another key of the map, and their single mappings
+    # use keys that differ from the column names.
+    std_names = {"time", "pos", "uid", "id", "parent_id", "seg_id", "track_id", "lineage_id", "pair", "k_cf", "k_ci"}
+    pair = bool(inp.get("pair")) and not ({cols["cf"], cols["ci"]} & std_names)
+    single_key = {"ci": "ci", "cf": "cf"}
+    if pair:
+        nm["pair"] = [cols["cf"], cols["ci"]]
+        for k in ("ci", "cf"):
+            if k in nm:
+                del nm[k]
+                nm["k_" + k] = cols[k]
+                single_key[k] = "k_" + k
     mut = inp["mutation"]
     tag = None
     if mut in ("unmapped_key", "mapped_to_missing", "missing_column"):
@@ -461,19 +494,34 @@ def probe_geff(inp) -> ProbeResult:
         if int(d.get("uid", -1)) != 1000 + m["uid"]:
             res.fail("custom:uid", f"node {m['id']}: uid {d.get('uid')}")
         for k in inp["customs"]:
-            if k in ("ci", "cf") and d.get(k) != m[k]:
-                res.fail(f"custom:{k}", f"node {m['id']}: {k} {d.get(k)!r} != {m[k]!r}")
+            if k in ("ci", "cf"):
+                exp = None if m["id"] in lacks[k] else m[k]
+                if d.get(single_key[k]) != exp:
+                    res.fail(f"custom:{k}" + (":sparse" if sparse else ""),
+                             f"node {m['id']}: {single_key[k]} {d.get(single_key[k])!r} != {exp!r} (source value; None = absent on this node)")
+        if pair:
+            got = d.get("pair")
+            got = None if got is None else [float(x) for x in got]
+            if m["id"] in lacks["cf"] or m["id"] in lacks["ci"]:
+                if got is not None and not any(x != x for x in got):
+                    pass  # a combined value where a component is missing is unconstrained
+            elif got != [float(m["cf"]), float(m["ci"])]:
+                res.fail("custom:pair", f"node {m['id']}: pair {got!r} != {[m['cf'], m['ci']]!r}")
         if m["parent"] is not None:
             e = gi.edges[by_uid[m["parent"]]["id"], m["id"]]
             if e.get("w") != m["ew"]:
                 res.fail("edge_prop", f"edge to {m['id']}: w {e.get('w')} != {m['ew']}")
+    if sparse:
+        res.tags.append("c12:geff_sparse_properties")
+    if pair:
+        res.tags.append("c12:geff_composite_custom")
     _classify(res, inp, "geff")
     return res
 
 
 PARTS = [
     Part("df", sources(), probe_df, quick=3000, thorough=30000),
-    Part("geff", sources(geff=True), probe_geff, quick=400, thorough=4000),
+    Part("geff", sources(geff=True), probe_geff, quick=400, thorough=4000, shrink=False),
 ]
 
 
